@@ -40,8 +40,10 @@ package scanner
 //@   assigns s.ch, s.offset, s.rdOffset, s.lineOffset, s.ErrorCount
 //@   ensures inv(s) && s.offset >= old(s.offset)
 //@   ensures !(s.ch == ' ' || s.ch == '\t' || s.ch == '\r' || (s.ch == '\n' && !s.insertSemi))
+//@   ensures [skipped-is-space] forall k in old(s.offset)..s.offset :: s.src[k] == ' ' || s.src[k] == '\t' || s.src[k] == '\n' || s.src[k] == '\r'
 //@ loop (*Scanner).skipWhitespace#1
 //@   invariant inv(s) && s.offset >= old(s.offset)
+//@   invariant forall k in old(s.offset)..s.offset :: s.src[k] == ' ' || s.src[k] == '\t' || s.src[k] == '\n' || s.src[k] == '\r'
 //@   decreases len(s.src) - s.offset
 //@
 //@ func (*Scanner).scanIdentifier
@@ -185,6 +187,8 @@ package scanner
 //@   ensures [op-text] IsOperator(tok) && tok != token.SEMICOLON ==> s.offset == fileOff(s, pos) + len(token.tokens[tok]) &&
 //@             string(s.src[fileOff(s, pos):s.offset]) == token.tokens[tok]
 //@   ensures [comment-len] tok == token.COMMENT ==> len(lit) <= s.offset - fileOff(s, pos)
+//@   ensures [gap-is-space] s.mode & ScanComments != 0 && old(s.unitVal) == "" ==>
+//@             (forall k in old(s.offset)..fileOff(s, pos) :: s.src[k] == ' ' || s.src[k] == '\t' || s.src[k] == '\n' || s.src[k] == '\r')
 //@ loop (*Scanner).Scan#1
 //@   invariant inv(s) && fileSize(s.file) == len(s.src) && unitOK(s) && s.offset >= old(s.offset)
 //@   invariant s.offset == old(s.offset) ==> s.insertSemi == old(s.insertSemi) && s.unitVal == old(s.unitVal)
